@@ -173,7 +173,9 @@ class WorldC07(World):
                     rxd['A'] = round(10 ** rng.uniform(8, 20), 3)
                     rxd['Ea'] = rng.choice([round(rng.uniform(0, 40), 3)] * 3 + [0.0, 0])     # 0: declared barrierless
             if id_style == 'user' or (id_style == 'mixed' and rng.random() < 0.5):
-                rxd['id'] = 'r_%04d' % r if rng.random() < 0.7 else 'rxn_%04d' % (100 + r)
+                x_ = rng.random()
+                # (a second prefix numbered by list position puts 'ads_0002' right after 'r_0001': adjacent numbers across prefixes)
+                rxd['id'] = 'r_%04d' % r if x_ < 0.6 else ('ads_%04d' % r if x_ < 0.85 else 'rxn_%04d' % (100 + r))
             rxs.append(rxd)
         inter = []
         for i in range(rng.randint(0, sw['n_inter']) if sw['n_inter'] else 0):
